@@ -384,27 +384,42 @@ def selections(ctx: Ctx, td: Path, env, log: Path) -> None:
 
 
 def signatures(ctx: Ctx, td: Path, env, log: Path) -> None:
+    # the plugin module in the working directory, and (as an installed plugin is) somewhere else on the module path
+    import tempfile as _tf
+    other = Path(_tf.mkdtemp(prefix="c16-elsewhere-"))
+    (other / "t.py").write_text((td / "t.py").read_text())
+    env_other = dict(env)
+    env_other["PYTHONPATH"] = f"{env.get('PYTHONPATH', L.ENV['PYTHONPATH'])}:{td}"
+    try:
+        for place, cwd_, env_ in (("", td, env), (":module-outside-the-working-directory", other, env_other)):
+            _signatures_at(ctx, td, env_, log, place, cwd_)
+    finally:
+        shutil.rmtree(other, ignore_errors=True)
+
+
+def _signatures_at(ctx: Ctx, td: Path, env, log: Path, place: str, cwd_: Path) -> None:
     for i, (name, (_, valid, takes_settings)) in enumerate(SIGS.items()):
         mod = f"sig_{i}"
         make_module(td / f"{mod}.py", "SIG", 100 + i, name)
         if log.exists():
             log.unlink()
-        rc, out, err = L.cli(["t.py", "--quiet", "--load", mod], cwd=str(td), env_extra=env)
+        rc, out, err = L.cli(["t.py", "--quiet", "--load", mod], cwd=str(cwd_), env_extra=env)
         calls = [json.loads(l) for l in log.read_text().splitlines()] if log.exists() else []
-        ctx.case(("signature", name), nontrivial=True, sample={"signature": name, "rc": rc, "out": out.strip()[:140]})
-        ctx.count("signatures")
+        ctx.case(("signature", name, place), nontrivial=True, sample={"signature": name, "rc": rc, "out": out.strip()[:140]} if not place else None)
+        ctx.count("signatures" + place)
+        name = name + place
         if not L.clean_verdict(rc, out, err):
-            ctx.report(f"signature:crash:{name}", f"check signature `{name}`: exit {rc}: " + (err.strip().splitlines() or ["?"])[-1][:150], {"signature": SIGS[name][0], "stderr": err[-800:]})
+            ctx.report(f"signature:crash:{name}", f"check signature `{name}`: exit {rc}: " + (err.strip().splitlines() or ["?"])[-1][:150], {"signature": SIGS[name.split(':')[0]][0], "stderr": err[-800:], "cwd": "the plugin's directory" if not place else "another directory; the plugin is found through PYTHONPATH"})
             continue
         lines = [l for l in out.splitlines() if l.strip()]
         if valid:
             n = sum(1 for c in calls if c[0] == mod)
-            want = 2 if name == "union" else 1
+            want = 2 if name.split(":")[0] == "union" else 1
             if n != want or rc != 1 or not any(f"[SIG{100 + i}]" in l for l in lines) or any(l.startswith("sig_") is False and "Error" in l and "[SIG" not in l for l in lines):
                 ctx.report(f"signature:valid-rejected:{name}", f"a valid check ({name}) was called {n} times (expected {want}); output: {out.strip()[:200]}",
-                           {"signature": SIGS[name][0], "stdout": out[-500:]})
+                           {"signature": SIGS[name.split(":")[0]][0], "stdout": out[-500:]})
         else:
-            ok = rc == 1 and len(lines) == 1 and not calls and (re.match(rf".*{mod}\.py:\d+: ", lines[0]) or name == "not-callable")
+            ok = rc == 1 and len(lines) == 1 and not calls and (re.match(rf".*{mod}\.py:\d+: ", lines[0]) or name.split(":")[0] == "not-callable")
             if not ok:
                 ctx.report(f"signature:invalid-not-rejected:{name}", f"an invalid check ({name}) was not rejected with `file:line: reason` and exit 1: rc={rc} {out.strip()[:200]!r}",
-                           {"signature": SIGS[name][0], "rc": rc, "stdout": out[-500:], "calls": len(calls)})
+                           {"signature": SIGS[name.split(":")[0]][0], "rc": rc, "stdout": out[-500:], "calls": len(calls)})
